@@ -2,9 +2,23 @@ package main
 
 import (
 	"go/ast"
+	"go/printer"
+	"go/token"
 	"sort"
+	"strings"
 )
 
 type astExpr = ast.Expr
 
 func sortStrings(s []string) { sort.Strings(s) }
+
+type astNode = ast.Node
+
+// nodeText prints a statement or expression on one line.
+func nodeText(n ast.Node) string {
+	var b strings.Builder
+	if err := printer.Fprint(&b, token.NewFileSet(), n); err != nil {
+		return ""
+	}
+	return strings.Join(strings.Fields(b.String()), " ")
+}
